@@ -21,6 +21,19 @@ def check(run):
         return
     n = 24000 if run.tier == "quick" else 200000
     cases = urlcorr.wpt_cases() + urlcorr.gen_cases(run.rng, n, hist_frac=0.0)
+    # a configured maximum length must not break the fixed point either: whatever parse hands out under a limit L parses
+    # again under the same L (cases whose input and base fit the limit while the result is longer are the interesting ones)
+    rng = run.rng
+    limited = []
+    for (inp, base, ops, _) in cases[:: 6]:
+        tot = len(inp) + (len(base) if base else 0)
+        L = rng.choice([len(inp), len(inp) + 1, tot, tot + 1, tot + 2, max(len(inp), len(base) if base else 0) + rng.randrange(0, 4)])
+        limited.append((inp, base, [], L))
+    for frag in (b"#section-two", b"#a b", b"#\xc3\xa9\xc3\xa9\xc3\xa9", b"#x"):
+        for b in (b"mailto:someone@example.org", b"data:text/plain,hello", b"about:blank", b"sc:opaque path"):
+            for d in (0, 1, 2, 5):
+                limited.append((frag, b, [], max(len(b), len(frag)) + d))
+    cases = cases + limited
     res = urlcorr.explore(run, binp, cases, with_spec=False)
     if res is None:
         return
@@ -38,11 +51,16 @@ def check(run):
                               f"{urlcorr.describe(r['case'])}", lines=[r[T + "_line"]])
             firsts.append((r, s))
             run.nontriv(s["href"])
-        rr = urlcorr.explore(run, binp, [(unhx(s["href"]), None, [], None) for _, s in firsts], with_spec=False, types=(T,))
+        rr = urlcorr.explore(run, binp, [(unhx(s["href"]), None, [], r["case"][3]) for r, s in firsts], with_spec=False, types=(T,))
         if rr is None:
             return
         for (r, s), r2 in zip(firsts, rr):
             st2, steps2 = r2[T]
+            if st2 != "ok" and urlpreds.idna_cap_class(r["case"], unhx(s["href"])):
+                run.violation("known:idna-input-cap-16384", f"{T[3:]}: the href of a URL whose host needs domain-to-ASCII processing "
+                              f"is longer than the 16384-byte input cap of ada::idna and does not parse again: "
+                              f"{str(urlcorr.describe(r['case']))[:200]}", lines=[r[T + "_line"][:300]])
+                continue
             if st2 != "ok":
                 run.violation(f"reparse-fail:{r[T + '_line']}", f"{T[3:]}: href {unhx(s['href'])!r} does not parse again "
                               f"({st2}): {urlcorr.describe(r['case'])}", lines=[r[T + "_line"], r2[T + "_line"]])
